@@ -152,7 +152,8 @@ reg(Check("C06", "model_checking",
           text=XS_NOTE, note="trusted: memdb store contract, instrumenter/scheduler; deeper histories beyond the bound are not covered",
           technique="explicit-state model checking over the real handlers (BFS by replay, invariant + step oracle)",
           engine="E2 xstate", claimed=False,
-          parts=[Part("acl", SRV, "^TestVerifC06Acl$", instr=True, gomaxprocs=16, deadline=(300, 2400))]))
+          parts=[Part("acl", SRV, "^TestVerifC06Acl$", instr=True, gomaxprocs=16, deadline=(300, 2400)),
+                 Part("acl-fault", SRV, "^TestVerifC06AclFault$", instr=True, gomaxprocs=16, deadline=(300, 2400))]))
 reg(Check("C07", "model_checking",
           "same search as C06 with the authorisation-table step oracle: who may change whose granted/requested mode, "
           "default vs restored grants, J needed to attach, subscriber limit",
@@ -175,3 +176,20 @@ reg(Check("C19", "exploration",
           parts=[Part("query", SRV, "^TestVerifC19Query$", instr=True, shards=(10, 10), deadline=(300, 2400)),
                  Part("rewrite", SRV, "^TestVerifC19RewriteTag$", instr=True, shards=(10, 10)),
                  Part("tags", SRV, "^TestVerifC19Tags$", instr=True)]))
+
+reg(Check("C08", "model_checking",
+          "direct: cached topic state == stored rows at every state of the acl and msg searches; faults: every request of the alphabet "
+          "from every state up to depth 2 with EVERY store call failing once; reload differential on message/deletion histories",
+          ["canonical schedule only", "non-persistent fields (online, last seen, user agent) excluded"],
+          text=XS_NOTE + "; plus exhaustive single-fault enumeration of every store call made by every request",
+          note="trusted: memdb store contract, instrumenter/scheduler",
+          technique="explicit-state model checking over the real handlers + exhaustive fault-point enumeration",
+          engine="E2 xstate + E3 memdb", claimed=False,
+          parts=[Part("acl-direct", SRV, "^TestVerifC08Acl$", instr=True, gomaxprocs=16, deadline=(300, 2400)),
+                 Part("acl-fault", SRV, "^TestVerifC08AclFault$", instr=True, gomaxprocs=16, deadline=(300, 2400))]))
+
+reg(Check("C13", "model_checking",
+          "(being extended) every request of the acl alphabet answered, also when any single store call fails",
+          [], text=XS_NOTE, note="input product part pending", technique="explicit-state model checking + fault enumeration",
+          engine="E2 xstate", claimed=False,
+          parts=[Part("acl-fault", SRV, "^TestVerifC13AclFault$", instr=True, gomaxprocs=16, deadline=(300, 2400))]))
